@@ -190,6 +190,7 @@ class Machine:
             self.x[xr] = atom(('reg', i))
         self.literals = {}
         self.trace = []
+        self.puts = set()
 
     def get(self, n):
         if n == 31:
@@ -199,6 +200,7 @@ class Machine:
     def put(self, n, v):
         if n != 31:
             self.x[n] = v
+            self.puts.add(n)
 
     def step(self, w, where):
         f = lambda lo, n: (w >> lo) & ((1 << n) - 1)
@@ -401,21 +403,11 @@ def run_handler(F, cls, h, ip, d, s, sh, imm, nlit, regmap):
     return [m.get(regmap[i]) for i in range(8)], tr
 
 
-@memoised('A64-SS-HSEM')
-def rule_ss_hsem(ctx, R):
-    if STRICT_FAMILY:
-        R.note('rule_ss_hsem skipped: RXVERIF_STRICT_FAMILY=1 (emitted-code / executor evaluation on terms switched off, see DESIGN.md 9.2)')
-        return
-    """SuperscalarHash emitter of the A64 back-end: the switch inside generateSuperscalarHash (IMUL_RCP excluded: its multiplier is loaded from the literal pool)"""
-    from rules import x86hsem as X
+def _ss_setup(ctx):
     from astq import walk
     F, hs = jit.handlers(ctx, 'a64')
     cls = 'randomx::JitCompilerA64'
-    R.rule('A64-SS-HSEM', 'for each SuperscalarHash instruction kind except IMUL_RCP the words the A64 generateSuperscalarHash emits, given their architectural meaning on terms over r0..r7 (x0..x7), compute what specification '
-           'Table 6.1.1 prescribes and change no other VM register; every dst x src the generator can produce, boundary constants', min_instances=500)
-    R.saw(config='K2', unit='src/jit_compiler_a64.cpp')
     g = F.func(cls + '::generateSuperscalarHash')
-    R.saw(fn=g['q'])
     # the loop body that holds the switch over the instruction kind
     loops = [x for x in walk(g['body']) if x['k'] in ('For', 'While') and astq.is_node(x.get('b')) and x['b']['k'] == 'Compound' and any(y['k'] == 'Switch' for y in x['b']['s'])]
     if len(loops) != 1:
@@ -432,6 +424,43 @@ def rule_ss_hsem(ctx, R):
     if iname is None:
         raise AnalysisBroken('A64-SS-HSEM: the Instruction local of the loop was not found')
     types = {k: v for k, v in F.enum('randomx::SuperscalarInstructionType').items() if k not in ('COUNT', 'INVALID')}
+    return F, cls, g, pseudo, iname, types
+
+
+def ss_written_registers(ctx):
+    """machine registers the generated SuperscalarHash code can write (one case per instruction kind and destination, IMUL_RCP included)"""
+    from rules import x86hsem as X
+    F, cls, g, pseudo, iname, types = _ss_setup(ctx)
+    out = set()
+    seen = set()
+    for name, d, s, sh, imm in X.ss_cases(types):
+        if (name, d) in seen:
+            continue
+        seen.add((name, d))
+        ex = Exec(F, cls, None, {}, 64)
+        env0 = {'%s.dst' % iname: KB.const(8, d), '%s.src' % iname: KB.const(8, s), '%s.mod' % iname: KB.const(8, sh << 2), '%s.opcode' % iname: KB.const(8, types[name])}
+        ov = {'randomx::Instruction::getImm32': KB.const(32, imm), 'randomx::Instruction::getModShift': KB.const(32, sh)}
+        ex.run_with(pseudo, [], env0, ov)
+        for w, wh in ex.words:
+            if (w.zeros | w.ones) & 31 != 31:
+                raise AnalysisBroken('A64 SuperscalarHash emitter: the destination field of a word emitted at %s is not constant (%s)' % (wh, w.hexpat()))
+            out.add(w.ones & 31)
+    out.discard(31)
+    return out
+
+
+@memoised('A64-SS-HSEM')
+def rule_ss_hsem(ctx, R):
+    if STRICT_FAMILY:
+        R.note('rule_ss_hsem skipped: RXVERIF_STRICT_FAMILY=1 (emitted-code / executor evaluation on terms switched off, see DESIGN.md 9.2)')
+        return
+    """SuperscalarHash emitter of the A64 back-end: the switch inside generateSuperscalarHash (IMUL_RCP excluded: its multiplier is loaded from the literal pool)"""
+    from rules import x86hsem as X
+    F, cls, g, pseudo, iname, types = _ss_setup(ctx)
+    R.rule('A64-SS-HSEM', 'for each SuperscalarHash instruction kind except IMUL_RCP the words the A64 generateSuperscalarHash emits, given their architectural meaning on terms over r0..r7 (x0..x7), compute what specification '
+           'Table 6.1.1 prescribes and change no other VM register; every dst x src the generator can produce, boundary constants', min_instances=500)
+    R.saw(config='K2', unit='src/jit_compiler_a64.cpp')
+    R.saw(fn=g['q'])
     where = '%s:%d' % (g['file'], g['line'])
     regmap = list(range(8))
     n = 0
